@@ -200,9 +200,18 @@ func (m *refModel) checkSeq(prop string, recs []*beRec) {
 			}
 
 		case "expireAll":
+			// Everything that has not expired yet expires now. An entry that expired earlier keeps its expiry
+			// time: expiring it again must not make it younger (for MaxStaleness, for DeleteExpiredAfter).
 			for _, o := range m.m {
+				if o.never || o.expLo > rec.invT {
+					o.expLo = rec.invT
+				}
+
+				if o.never || o.expHi > rec.retT {
+					o.expHi = rec.retT
+				}
+
 				o.never = false
-				o.expLo, o.expHi = rec.invT, rec.retT
 			}
 
 		case "deleteAll":
